@@ -112,8 +112,10 @@ func g03IsDropped(pay g03Payload, pre g03Prefix, closer, tail string) bool {
 // g03Values: what the application's value looked like before the attacker's
 // quote. In the quoted reading all of it is the inside of one string token, so
 // the calibration done with "x" carries over; none contains the context's own
-// quote or ends in a backslash. (idx 5 is rendered with the other quote kind.)
-var g03Values = []string{"John Smith", "2024-01-02 10:00:00", "item #5", "C#", "a--b", "5\x01 disk", "a,b;c(d)", "100%", "x/*y", "x*/y", "n\xc3\xa9e", "select", "1 or 1", "a b c d e f g h", "aaaaaaaaaaaaaaaaaaaaaaaaaaaaaaaaaaaaaaaaaaaaaaaa", "-- x", "1-- -", "{x}", "@a", "$1.50", "a\nb", "0x1f", "x y`z", "[q]"}
+// quote or ends in an odd run of backslashes. (idx 5 is rendered with the other quote kind.)
+var g03Values = []string{"John Smith", "2024-01-02 10:00:00", "item #5", "C#", "a--b", "5\x01 disk", "a,b;c(d)", "100%", "x/*y", "x*/y", "n\xc3\xa9e", "select", "1 or 1", "a b c d e f g h", "aaaaaaaaaaaaaaaaaaaaaaaaaaaaaaaaaaaaaaaaaaaaaaaa", "-- x", "1-- -", "{x}", "@a", "$1.50", "a\nb", "0x1f", "x y`z", "[q]",
+	// values ending in an even run of backslashes: the quote behind them still closes the string
+	"C:\\\\", "x" + strings.Repeat("\\", 30), "x" + strings.Repeat("\\", 32), "x" + strings.Repeat("\\", 34), strings.Repeat("\\", 64), "a" + strings.Repeat("\\", 1024)}
 
 // white-space bytes that may stand for the blank inside a tail without
 // changing where the trailing comment ends (no line feed)
@@ -477,7 +479,7 @@ func g03ExhaustiveCount() uint64 {
 func c03() *core.Check {
 	return &core.Check{
 		ID: "C03",
-		Rule: "members of the fixed attack grammar G_sqli (prefix x closers x separator x payload family x case mask x tail; productions dropped by the one-time calibration are listed in grammar/g03_dropped.txt): exhaustively with one separator per string and four fixed case masks, then every word of the payload re-cased on its own (all 2^k assignments for words up to 4 letters), then every quoted \"x\"/\"admin\" member with each of 24 realistic value texts before the quote (dates, names with blanks, values containing # -- /* or the other quote kind) and the blank of the trailing comment replaced by every other white-space byte, then sampled with an independent separator per gap, random masks, random value text, 3-65537 closing parentheses on a quarter of the \"))\" members, and one separator in eight repeated - or, for comment separators, one single long comment - up to a threshold length (29-65537 bytes); a spread of members with one gap holding an exact number of separate comment tokens from the windows 250-260 and 65530-65540 (statistics kept in 8- or 16-bit integers wrap there). Oracle: IsSQLi = true. " +
+		Rule: "members of the fixed attack grammar G_sqli (prefix x closers x separator x payload family x case mask x tail; productions dropped by the one-time calibration are listed in grammar/g03_dropped.txt): exhaustively with one separator per string and four fixed case masks, then every word of the payload re-cased on its own (all 2^k assignments for words up to 4 letters), then every quoted \"x\"/\"admin\" member with each of 30 realistic value texts (incl. values ending in even runs of 2-1024 backslashes) before the quote (dates, names with blanks, values containing # -- /* or the other quote kind) and the blank of the trailing comment replaced by every other white-space byte, then sampled with an independent separator per gap, random masks, random value text, 3-65537 closing parentheses on a quarter of the \"))\" members, and one separator in eight repeated - or, for comment separators, one single long comment - up to a threshold length (29-65537 bytes); a spread of members with one gap holding an exact number of separate comment tokens from the windows 250-260 and 65530-65540 (statistics kept in 8- or 16-bit integers wrap there). Oracle: IsSQLi = true. " +
 			"Non-trivial = every member; distinct by string.",
 		Plan: func(tier string, seed uint64) []core.Unit {
 			total := g03ExhaustiveCount()
